@@ -4,7 +4,6 @@ func stub(name string) string {
 	return "-- GENERATED placeholder (" + name + ")\nimport Rpcx.Basic\n"
 }
 
-func genBreaker() string { return stub("Breaker") }
 func genPool() string    { return stub("Pool") }
 func genSelect() string  { return stub("Select") }
 func genPreds() string   { return stub("Preds") }
